@@ -433,7 +433,8 @@ class Check:
         for msg in self.known:
             print(f"KNOWN-FINDING: property={self.pid} {msg}")
         seen = 0
-        for what, path, no_input in self.violations:
+        # violations with a concrete failing input first, broken proofs / correspondences after them
+        for what, path, no_input in sorted(self.violations, key=lambda v: bool(v[2])):
             seen += 1
             if seen > 5:
                 break
